@@ -208,3 +208,10 @@ mut("C11", "R11.4", "flag-overwritten", PA + "analysis/left_recursion.rs",
     "            changed |= v.len() < ", "            changed = v.len() < ")
 mut("C14", "R14.5", "end-column-from-start", RT + "lexer/token_iter.rs",
     ".end_column(positions.end_position.column as u32)", ".end_column(positions.start_position.column as u32)")
+mut("C31", "R31.2", "fill-insert-recorded-as-replace", RT + "parser/recovery.rs",
+    "                        min = d[i][j - 1] + 1;\n                        op = EditOp::Insert;",
+    "                        min = d[i][j - 1] + 1;\n                        op = EditOp::Replace;")
+mut("C31", "R31.2", "candidate-tests-other-cell", RT + "parser/recovery.rs",
+    "                    if d[i - 1][j - 1] + 1 < min {", "                    if d[i - 1][j] + 1 < min {")
+mut("C31", "R31.2", "boundary-row-delete", RT + "parser/recovery.rs",
+    "            ops[0][j] = EditOp::Insert;", "            ops[0][j] = EditOp::Delete;")
